@@ -217,3 +217,18 @@ impl<T: Trace> ForwardFinalization<T> {
         Self(PhantomData)
     }
 }
+
+#[cfg(feature = "verif")]
+impl<F: Finalizable> FinalizableProcessor<F> {
+    /// Read-only view of the two tables as object references, in table order:
+    /// `(candidates, ready_for_finalize)`.
+    pub(crate) fn verif_tables(&self) -> (Vec<ObjectReference>, Vec<ObjectReference>) {
+        (
+            self.candidates.iter().map(|f| f.get_reference()).collect(),
+            self.ready_for_finalize
+                .iter()
+                .map(|f| f.get_reference())
+                .collect(),
+        )
+    }
+}
